@@ -291,11 +291,11 @@ def extra_cases(rng, tier):
     for kw in ({"ord": "nuc", "axis": (-2, -1), "keepdims": True}, {"axis": (0, 2), "keepdims": True}, {"ord": "fro", "axis": (1, 2), "keepdims": True}):
         add("linalg.norm", "3-D %s" % kw, (lambda m, z, kw=kw: m.linalg.norm(z, **kw)), [n234], [0], False)
     add("linalg.norm", "vector ord=3 keepdims", (lambda m, z: m.linalg.norm(z, 3, keepdims=True)), [R.distinct(rng, (4,))], [0], False)
-    # ---- where= masks of the reductions (refused by the pinned tree; if accepted, the mask has to be honoured) ----
+    # ---- where= masks of the reductions (raise-or-right; no slice is masked out completely: the mean of nothing is NaN in NumPy itself) ----
     msk23 = onp.array([[True, False, True], [False, True, True]])
     d23 = R.distinct(rng, (2, 3))
     for rn in ("mean", "var", "std", "sum", "prod", "max", "min"):
-        for kw in ({"where": msk23}, {"where": msk23, "axis": 1}, {"where": msk23[0], "axis": 0, "keepdims": True}):
+        for kw in ({"where": msk23}, {"where": msk23, "axis": 1}, {"where": msk23[:, :1], "axis": 0, "keepdims": True}):
             if rn in ("max", "min"):
                 kw = dict(kw, initial=(-9.0 if rn == "max" else 9.0))
             add(rn, "masked: %s" % ", ".join("%s=%s" % (k_, "mask" if k_ == "where" else v_) for k_, v_ in kw.items()),
